@@ -116,6 +116,24 @@ var ctorAnonTwo = ctor{"anon2f", func(g *shapeGen, in shape) shape {
 	return wrap(in, "anon2f", fmt.Sprintf("struct{ F %s; G %s; H string }", in.Src, in.Src), fmt.Sprintf("struct{ F %s; G %s; H string }", in.Tgt, in.Tgt))
 }}
 
+// Seed drives every random choice of the corpus (VERIF_SEED).
+var Seed int64 = 1
+
+// extendedCtors: the constructors of the fixed families plus those added for single cases.
+func extendedCtors() []ctor {
+	return append(append([]ctor{}, ctors...), ctorAnonTwo, ctorRecPtrFirst, ctorMapPtrKey)
+}
+
+// randomShape composes depth constructors from the extended set around leaf.
+func randomShape(g *shapeGen, rng *rand.Rand, leaf shape, depth int) shape {
+	s := leaf
+	ext := extendedCtors()
+	for i := 0; i < depth; i++ {
+		s = ext[rng.Intn(len(ext))].F(g, s)
+	}
+	return s
+}
+
 func ctorByName(n string) ctor {
 	if n == "recp" {
 		return ctorRecPtrFirst
@@ -253,6 +271,33 @@ func FamilyShape(thorough bool, seed int64) []*Conv {
 		}
 	}
 	out = append(out, shapeConv("shape", shape{Src: "map[PFXPK]int", Tgt: "map[PFXPK]int", Name: "mapstructptrkey", Decls: []string{"type PFXPK struct {\n\tP *int\n\tN string\n}"}}, nextFormat(), nil, nil))
+	// seeded random compositions over the extended constructor set (quick: a small sample; thorough: more and deeper)
+	{
+		rng := rand.New(rand.NewSource(seed*7919 + 11))
+		leafNames := []string{"int", "string", "float64", "bool", "uint8", "named"}
+		n3, n4 := 40, 0
+		if thorough {
+			n3, n4 = 300, 150
+		}
+		seenR := map[string]bool{}
+		for i := 0; i < n3+n4; i++ {
+			depth := 3
+			if i >= n3 {
+				depth = 4
+			}
+			s := randomShape(g, rng, g.leaf(leafNames[rng.Intn(len(leafNames))]), depth)
+			if seenR[s.Name] || strings.Count(s.Name, "rec") > 1 {
+				continue
+			}
+			seenR[s.Name] = true
+			cv := shapeConv("shape", s, nextFormat(), nil, nil)
+			cv.ID = "shape/rnd_" + s.Name + "/" + cv.Format
+			if depth == 4 {
+				cv.Bounds = &Bounds{MaxSlice: 1, MaxMap: 1, RecDepth: 1}
+			}
+			out = append(out, cv)
+		}
+	}
 	if thorough {
 		rng := rand.New(rand.NewSource(seed))
 		leafNames := []string{"int", "string", "float64", "bool", "uint8", "named"}
